@@ -78,6 +78,7 @@ type inliner struct {
 	skipped map[*ssa.Function]string
 	errs    []string
 	litArgs int // go/defer literals whose arguments were turned into captured variables
+	regionCopies int // calls through a function variable made direct by copying the code after a merge per way in
 }
 
 func addRef(v ssa.Value, in ssa.Instruction) {
@@ -889,6 +890,11 @@ func (in *inliner) threadPhis(f *ssa.Function) {
 			if len(b.Preds) < 2 {
 				continue
 			}
+			if in.devirtPerPred(f, b) {
+				in.touched[f] = true
+				changed = true
+				break
+			}
 			_, isPhi := b.Instrs[0].(*ssa.Phi)
 			if !isPhi {
 				// a test whose outcome is already decided on some way in (the same
@@ -946,6 +952,277 @@ func (in *inliner) threadPhis(f *ssa.Function) {
 	}
 }
 
+// devirtPerPred: block b calls a function variable (`op := core.Add` in one branch,
+// `op = core.Sub` in another, then `op(l, r)` where the branches meet), and on every way into b
+// the variable holds one known function. b is copied per way in and each copy calls its
+// function directly — the form the code has when every branch makes its own call.
+func (in *inliner) devirtPerPred(f *ssa.Function, b *ssa.BasicBlock) bool {
+	for _, p := range b.Preds {
+		if b.Dominates(p) || p == b {
+			return false // loop header
+		}
+	}
+	// a function variable that holds one known function (or nothing yet) on every way into b,
+	// not the same one on all of them
+	var cands []*ssa.Alloc
+	for _, blk := range f.Blocks {
+		for _, x := range blk.Instrs {
+			al, ok := x.(*ssa.Alloc)
+			if !ok {
+				continue
+			}
+			if _, isSig := al.Type().(*types.Pointer).Elem().Underlying().(*types.Signature); !isSig {
+				continue
+			}
+			// only read and written here, by plain loads and stores
+			private := true
+			for _, r := range *al.Referrers() {
+				switch t := r.(type) {
+				case *ssa.Store:
+					if t.Addr != ssa.Value(al) {
+						private = false
+					}
+				case *ssa.UnOp:
+					if t.Op != token.MUL {
+						private = false
+					}
+				case *ssa.DebugRef:
+				default:
+					private = false
+				}
+			}
+			if !private {
+				continue
+			}
+			fns := map[*ssa.Function]bool{}
+			okAll := true
+			for _, p := range b.Preds {
+				fn, isNil, ok := constFuncAtEnd(al, p)
+				if !ok {
+					okAll = false
+					break
+				}
+				if !isNil {
+					fns[fn] = true
+				}
+			}
+			if okAll && len(fns) >= 1 && len(b.Preds) >= 2 {
+				cands = append(cands, al)
+			}
+		}
+	}
+	if len(cands) == 0 {
+		return false
+	}
+	if in.touched[f] {
+		// dominance is needed below: bring it up to date first, the scan comes back here
+		in.finish(f)
+		delete(in.touched, f)
+		return true
+	}
+	// the region that can only be entered through b: everything b dominates
+	var region []*ssa.BasicBlock
+	inR := map[*ssa.BasicBlock]bool{}
+	var walk func(x *ssa.BasicBlock)
+	walk = func(x *ssa.BasicBlock) {
+		inR[x] = true
+		region = append(region, x)
+		for _, d := range x.Dominees() {
+			walk(d)
+		}
+	}
+	walk(b)
+	if len(region) > 40 {
+		return false
+	}
+	for _, blk := range region {
+		if blk == f.Recover {
+			return false
+		}
+		for _, x := range blk.Instrs {
+			switch x.(type) {
+			case *ssa.Defer, *ssa.Go, *ssa.MakeClosure, *ssa.Phi, *ssa.Select:
+				return false
+			}
+		}
+		for _, sc := range blk.Succs {
+			if !inR[sc] && len(sc.Instrs) > 0 {
+				if _, isPhi := sc.Instrs[0].(*ssa.Phi); isPhi {
+					return false
+				}
+			}
+		}
+	}
+	// the variable is not assigned inside the region, and the region calls through it
+	var vars []*ssa.Alloc
+	for _, al := range cands {
+		stored, called := false, false
+		for _, blk := range region {
+			for _, x := range blk.Instrs {
+				if st, isSt := x.(*ssa.Store); isSt && st.Addr == ssa.Value(al) {
+					stored = true
+				}
+				if call, isCall := x.(*ssa.Call); isCall && !call.Call.IsInvoke() {
+					if ld, isLd := call.Call.Value.(*ssa.UnOp); isLd && ld.Op == token.MUL && ld.X == ssa.Value(al) {
+						called = true
+					}
+				}
+			}
+		}
+		if !stored && called {
+			vars = append(vars, al)
+		}
+	}
+	if len(vars) == 0 {
+		return false
+	}
+	preds := append([]*ssa.BasicBlock(nil), b.Preds...)
+	seenP := map[*ssa.BasicBlock]bool{}
+	for _, p := range preds {
+		if seenP[p] {
+			return false
+		}
+		seenP[p] = true
+	}
+	heads := []*ssa.BasicBlock{b}
+	var added []*ssa.BasicBlock
+	for i := 1; i < len(preds); i++ {
+		vm := map[ssa.Value]ssa.Value{}
+		bm := map[*ssa.BasicBlock]*ssa.BasicBlock{}
+		for _, blk := range region {
+			bm[blk] = ssa.XNewBlock(f, blk.Comment)
+		}
+		for _, blk := range region {
+			nb := bm[blk]
+			for _, x := range blk.Instrs {
+				ni := shallowClone(x)
+				emit(nb, ni)
+				if v, isV := x.(ssa.Value); isV {
+					vm[v] = ni.(ssa.Value)
+				}
+				if al, isAl := ni.(*ssa.Alloc); isAl && !al.Heap {
+					f.Locals = append(f.Locals, al)
+				}
+			}
+		}
+		for _, blk := range region {
+			nb := bm[blk]
+			for _, ni := range nb.Instrs {
+				for _, op := range ni.Operands(nil) {
+					if *op == nil {
+						continue
+					}
+					if nv, ok := vm[*op]; ok {
+						*op = nv
+					}
+					addRef(*op, ni)
+				}
+			}
+			for _, sc := range blk.Succs {
+				if inR[sc] {
+					nb.Succs = append(nb.Succs, bm[sc])
+				} else {
+					nb.Succs = append(nb.Succs, sc)
+					sc.Preds = append(sc.Preds, nb)
+				}
+			}
+			if blk == b {
+				nb.Preds = []*ssa.BasicBlock{preds[i]}
+			} else {
+				for _, p := range blk.Preds {
+					if inR[p] {
+						nb.Preds = append(nb.Preds, bm[p])
+					}
+				}
+			}
+			added = append(added, nb)
+		}
+		for k, sc := range preds[i].Succs {
+			if sc == b {
+				preds[i].Succs[k] = bm[b]
+			}
+		}
+		heads = append(heads, bm[b])
+	}
+	b.Preds = []*ssa.BasicBlock{preds[0]}
+	f.Blocks = append(f.Blocks, added...)
+	// per copy: what each variable holds there
+	copies := [][]*ssa.BasicBlock{region}
+	for i := 1; i < len(preds); i++ {
+		copies = append(copies, added[(i-1)*len(region):i*len(region)])
+	}
+	for ci, blks := range copies {
+		head := blks[0]
+		for _, al := range vars {
+			fn, isNil, ok := constFuncAtEnd(al, head.Preds[0])
+			if !ok {
+				continue
+			}
+			_ = ci
+			for _, blk := range blks {
+				for _, x := range blk.Instrs {
+					switch t := x.(type) {
+					case *ssa.Call:
+						if ld, isLd := t.Call.Value.(*ssa.UnOp); isLd && ld.Op == token.MUL && ld.X == ssa.Value(al) && !isNil {
+							delRef(ld, t)
+							t.Call.Value = fn
+						}
+					case *ssa.BinOp:
+						// `op != nil` / `op == nil`
+						if t.Op != token.EQL && t.Op != token.NEQ {
+							continue
+						}
+						var other ssa.Value
+						if ld, isLd := t.X.(*ssa.UnOp); isLd && ld.Op == token.MUL && ld.X == ssa.Value(al) {
+							other = t.Y
+						} else if ld, isLd := t.Y.(*ssa.UnOp); isLd && ld.Op == token.MUL && ld.X == ssa.Value(al) {
+							other = t.X
+						}
+						if c0, isC := other.(*ssa.Const); isC && c0.IsNil() {
+							res := (t.Op == token.EQL) == isNil
+							k := ssa.NewConst(constant.MakeBool(res), t.Type())
+							replaceUses(t, k)
+						}
+					}
+				}
+			}
+		}
+		for _, blk := range blks {
+			foldBranch(blk)
+		}
+	}
+	in.regionCopies++
+	return true
+}
+
+// constFuncAtEnd: along the straight line of unique predecessors that ends in p the variable
+// is last assigned one plain function, or nil / nothing since its declaration.
+func constFuncAtEnd(al *ssa.Alloc, p *ssa.BasicBlock) (fn *ssa.Function, isNil bool, ok bool) {
+	seen := map[*ssa.BasicBlock]bool{}
+	for blk := p; blk != nil && !seen[blk]; {
+		seen[blk] = true
+		for i := len(blk.Instrs) - 1; i >= 0; i-- {
+			if st, isSt := blk.Instrs[i].(*ssa.Store); isSt && st.Addr == ssa.Value(al) {
+				if g, isFn := st.Val.(*ssa.Function); isFn && g.Parent() == nil {
+					return g, false, true
+				}
+				if c0, isC := st.Val.(*ssa.Const); isC && c0.IsNil() {
+					return nil, true, true
+				}
+				return nil, false, false
+			}
+			if blk.Instrs[i] == ssa.Instruction(al) {
+				return nil, true, true
+			}
+		}
+		if len(blk.Preds) != 1 {
+			return nil, false, false
+		}
+		blk = blk.Preds[0]
+	}
+	return nil, false, false
+}
+
 // fuse appends block c, whose only predecessor b ends in a jump to it, to b.
 func fuse(f *ssa.Function, b, c *ssa.BasicBlock) {
 	removeInstr(b.Instrs[len(b.Instrs)-1])
@@ -975,6 +1252,12 @@ func fuse(f *ssa.Function, b, c *ssa.BasicBlock) {
 // (no calls but len/cap, no allocation), no value of b is used outside b, and
 // its successors have no phis. Otherwise b is returned unchanged.
 func (in *inliner) splitPerPred(f *ssa.Function, b *ssa.BasicBlock) []*ssa.BasicBlock {
+	return in.splitPerPredAllow(f, b, nil)
+}
+
+// splitPerPredAllow: as splitPerPred; the calls in allow may be copied (calls through a
+// function variable that each copy turns into the direct call its way in selected).
+func (in *inliner) splitPerPredAllow(f *ssa.Function, b *ssa.BasicBlock, allow map[ssa.Instruction]bool) []*ssa.BasicBlock {
 	same := []*ssa.BasicBlock{b}
 	if len(b.Preds) < 2 || len(b.Instrs) == 0 {
 		return same
@@ -1018,7 +1301,14 @@ func (in *inliner) splitPerPred(f *ssa.Function, b *ssa.BasicBlock) []*ssa.Basic
 				return same
 			}
 		case *ssa.Call:
+			if allow[t] {
+				break
+			}
 			if _, isB := t.Call.Value.(*ssa.Builtin); !isB || (t.Call.Value.Name() != "len" && t.Call.Value.Name() != "cap") {
+				return same
+			}
+		case *ssa.Extract:
+			if _, ok := t.Tuple.(*ssa.Call); !ok || !allow[t.Tuple.(*ssa.Call)] {
 				return same
 			}
 		default:
@@ -1393,6 +1683,10 @@ func branchOutcome(chain []*ssa.BasicBlock) (bool, bool) {
 	fieldKey := func(a ssa.Value) string {
 		if fa, ok := a.(*ssa.FieldAddr); ok {
 			return fmt.Sprintf("%p.%d", res(fa.X), fa.Field)
+		}
+		// a package variable: two reads with no store through a pointer and no call in between
+		if g, ok := a.(*ssa.Global); ok {
+			return "G:" + g.String()
 		}
 		return ""
 	}
@@ -2399,6 +2693,9 @@ func inlineHelpers(tops []*ssa.Function) (dropped map[*ssa.Function]bool, notes 
 	if len(sk) > 0 {
 		notes = append(notes, "functions not in the baseline left as calls: "+strings.Join(sk, "; "))
 	}
+	if in.regionCopies > 0 {
+		notes = append(notes, fmt.Sprintf("%d call(s) through a function variable assigned one known function on each way in: the code from the merge on was copied per way in, each copy calling its function directly", in.regionCopies))
+	}
 	if in.litArgs > 0 {
 		notes = append(notes, fmt.Sprintf("%d go/defer statement(s) of a literal with arguments rewritten as a literal capturing fresh variables that hold the arguments", in.litArgs))
 	}
@@ -2410,7 +2707,9 @@ func (in *inliner) finishTouched() {
 	for f := range in.touched {
 		fs = append(fs, f)
 	}
-	sort.Slice(fs, func(i, j int) bool { return fs[i].Pos() < fs[j].Pos() || (fs[i].Pos() == fs[j].Pos() && fs[i].Name() < fs[j].Name()) })
+	sort.Slice(fs, func(i, j int) bool {
+		return fs[i].Pos() < fs[j].Pos() || (fs[i].Pos() == fs[j].Pos() && fs[i].Name() < fs[j].Name())
+	})
 	for _, f := range fs {
 		in.finish(f)
 	}
